@@ -307,7 +307,9 @@ def main():
         assumptions=list(getattr(mod, "ASSUMPTIONS", [])),
         wall_s=round(time.time() - t0, 2), violations=len(violations))
     os.makedirs(os.path.join(VERIF, "evidence"), exist_ok=True)
-    if not a.replay and not os.environ.get("VERIF_NO_EVIDENCE"):   # (runs against a scratch copy keep the evidence of /repo)
+    import re as _re
+    if not a.replay and not os.environ.get("VERIF_NO_EVIDENCE") and _re.match(r"^C\d\d$", pid):
+        # (runs against a scratch copy keep the evidence of /repo; REC is the model-wide correspondence, not a property)
         json.dump(ev, open(os.path.join(VERIF, "evidence", pid + ".json"), "w"), indent=1, default=str)
 
     for kind, path, suffix in violations:
